@@ -522,7 +522,7 @@ impl<'e> Report<'e> {
                             .wrapping_mul(0x9E37_79B9_7F4A_7C15)
                             .wrapping_add(campaign_hash)
                             .wrapping_add((shard as u64) << 32 | 0x5bd1);
-                        let out = run_shard(env, n, len, seed, stop, f, shrink_iters);
+                        let out = run_shard(env, name, n, len, seed, stop, f, shrink_iters);
                         results.lock().unwrap().push((shard, out.0, out.1));
                     })
                     .unwrap();
@@ -869,6 +869,7 @@ where
 
 fn run_shard<F>(
     env: &Env,
+    name: &str,
     cases: u32,
     len: (usize, usize),
     seed: u64,
@@ -909,7 +910,8 @@ where
             s.samples.len() < 4 && s.cases % 53 == 7
         };
         if let Ok(p) = std::env::var("VH_INFLIGHT") {
-            let _ = std::fs::write(&p, format!("{{\"in_flight_choices\": {:?}}}", v));
+            // same shape as a replay file, so that it can be replayed as is
+            let _ = std::fs::write(&p, format!("{{\"property\": {:?}, \"campaign\": {:?}, \"signature\": \"abort\", \"choices\": {:?}}}", env.property, name, v));
         }
         let mut case = Case::new(Choices::new(v), &env.excluded, want);
         let mut scratch = CampaignStats::default();
